@@ -12,13 +12,6 @@ Theorem C03_compose_is_left_to_right : forall ms p, Forall (affine ROps) ms ->
   mapply_pt ROps (compose_transforms ROps ms) p = fold_left (fun q m => mapply_pt ROps m q) ms p.
 Proof. exact compose_left_to_right. Qed.
 
-(* ------------------------------------------------------------ each appending method *)
-(* returns the index of the step it added (= previous length) and appends exactly one pair at the end *)
-Theorem C03_append_returns_index : forall st o st' i, step ROps st o = Ok (st', i) ->
-  i = length st /\ exists fr, op_pair ROps o = Ok fr /\ st' = st ++ [fr].
-Proof. exact step_spec. Qed.
-Theorem C03_error_leaves_state : forall st o e, step ROps st o = Raise e -> step_state ROps st o = st.
-Proof. exact step_error_leaves_state. Qed.
 (* the pair a step appends: last rows (0,0,0,1) and inverse in both orders.  op_ok = documented argument domain
    (explicit matrices affine and, if an inverse is passed, really inverse; rotation matrices orthogonal) *)
 Theorem C03_step_inverse_both_orders : forall o fr, op_ok o -> op_pair ROps o = Ok fr ->
@@ -65,6 +58,21 @@ Proof. exact call_reverse_is_sequential. Qed.
 Theorem C03_call_history : forall ops w p, Forall op_ok ops ->
   call_point ROps (run_ops ROps ops []) None false w p = fold_left (fun q o => step_action o w q) ops p.
 Proof. exact call_history. Qed.
+(* the same for EVERY sub-range 0 <= a <= b <= number of accepted calls, forward and reverse: the call equals the
+   documented actions of the accepted calls number a .. b-1 in order; with reverse=True their inverse actions in reverse
+   order (C03_step_inverse_undoes: each inverse action undoes the documented action of its step) *)
+Theorem C03_call_history_range : forall ops a b w p, Forall op_ok ops -> (a <= b <= length (accepted_ops ops))%nat ->
+  let sel := firstn (b - a) (skipn a (accepted_ops ops)) in
+  call_point ROps (run_ops ROps ops []) (Some (Z.of_nat a, Z.of_nat b)) false w p =
+    fold_left (fun q o => step_action o w q) sel p /\
+  call_point ROps (run_ops ROps ops []) (Some (Z.of_nat a, Z.of_nat b)) true w p =
+    fold_left (fun q o => step_inverse_action o w q) (rev sel) p.
+Proof. exact call_history_range. Qed.
+Theorem C03_step_inverse_undoes : forall o w q, op_ok o -> accepts o = true ->
+  step_inverse_action o w (step_action o w q) = q /\ step_action o w (step_inverse_action o w q) = q.
+Proof. exact step_inverse_undoes. Qed.
+Theorem C03_length_is_accepted_calls : forall ops, length (run_ops ROps ops []) = length (accepted_ops ops).
+Proof. exact accepted_length. Qed.
 Theorem C03_reverse_undoes : forall st range w p, Inv st ->
   call_point ROps st range true w (call_point ROps st range false w p) = p /\
   call_point ROps st range false w (call_point ROps st range true w p) = p.
@@ -77,13 +85,6 @@ Proof. exact matrix_reverse_is_inverse. Qed.
 Theorem C03_vector_ignores_translation : forall t fr v, op_pair ROps (OTranslate t) = Ok fr ->
   apply_point ROps (fst fr) true v = v /\ apply_point ROps (snd fr) true v = v.
 Proof. exact translate_no_effect_on_vectors. Qed.
-Theorem C03_single_equals_stack_row : forall st range rev d w ps k,
-  nth_error (call_stack ROps st range rev d w ps) k = option_map (call_single ROps st range rev d w) (nth_error ps k).
-Proof. exact call_stack_nth. Qed.
-Theorem C03_discard_z_only_drops_z : forall st range rev w p,
-  call_single ROps st range rev true w p = firstn 2 (call_single ROps st range rev false w p) /\
-  call_single ROps st range rev false w p = vlist (call_point ROps st range rev w p).
-Proof. exact call_discard_z. Qed.
 
 (* ------------------------------------------------------------ returned indices build ranges *)
 Theorem C03_index_selects_step : forall st o st1 i ops, step ROps st o = Ok (st1, i) ->
@@ -96,6 +97,24 @@ Theorem C03_lengths_select_appended : forall st ops1 ops2,
     selected (run_ops ROps ops2 (run_ops ROps ops1 st))
              (Some (Z.of_nat (length st), Z.of_nat (length (run_ops ROps ops1 st)))) = added.
 Proof. exact lengths_select_appended. Qed.
+
+(* ================================================================================================================
+   definitional: pins the shape of the model; the content is carried by the traced ties / correspondence
+   ================================================================================================================ *)
+(* ------------------------------------------------------------ each appending method *)
+(* returns the index of the step it added (= previous length) and appends exactly one pair at the end *)
+Theorem C03_append_returns_index : forall st o st' i, step ROps st o = Ok (st', i) ->
+  i = length st /\ exists fr, op_pair ROps o = Ok fr /\ st' = st ++ [fr].
+Proof. exact step_spec. Qed.
+Theorem C03_error_leaves_state : forall st o e, step ROps st o = Raise e -> step_state ROps st o = st.
+Proof. exact step_error_leaves_state. Qed.
+Theorem C03_single_equals_stack_row : forall st range rev d w ps k,
+  nth_error (call_stack ROps st range rev d w ps) k = option_map (call_single ROps st range rev d w) (nth_error ps k).
+Proof. exact call_stack_nth. Qed.
+Theorem C03_discard_z_only_drops_z : forall st range rev w p,
+  call_single ROps st range rev true w p = firstn 2 (call_single ROps st range rev false w p) /\
+  call_single ROps st range rev false w p = vlist (call_point ROps st range rev w p).
+Proof. exact call_discard_z. Qed.
 
 (* non-vacuity: a history with every kind of step satisfies op_ok *)
 Example C03_op_ok_inhabited :
@@ -112,7 +131,7 @@ Qed.
 Definition C03_all := (C03_compose_is_left_to_right, C03_append_returns_index, C03_error_leaves_state,
   C03_step_inverse_both_orders, C03_step_acts_as_documented, C03_zero_scale_rejected,
   C03_negative_scale_rejected_unless_flip, C03_flip_dim_range, C03_Inv_reachable, C03_range_selects,
-  C03_call_is_sequential, C03_call_reverse_is_sequential, C03_call_history, C03_reverse_undoes,
+  C03_call_is_sequential, C03_call_reverse_is_sequential, C03_call_history, C03_call_history_range, C03_step_inverse_undoes, C03_length_is_accepted_calls, C03_reverse_undoes,
   C03_matrix_reverse_is_inverse, C03_vector_ignores_translation, C03_single_equals_stack_row,
   C03_discard_z_only_drops_z, C03_index_selects_step, C03_lengths_select_appended).
 Print Assumptions C03_all.
